@@ -285,6 +285,34 @@ def scenario(res, seed, tier):
         if hc.get_many([]) != {} or hc.set_many({}) != [] or hc.delete_many([]) is not True:
             v("empty-multi-key-call", "empty multi-key calls returned something unexpected")
         res.count("multi_key_calls_checked")
+    # 5. the same bare key addressed through different server keys: each pair goes to owner(server_key) exactly once
+    #    (routing only: the merged result is keyed by the bare key, so values are not compared here)
+    import collections as _c
+    sks = ["user:%d" % rng.randrange(50) for _ in range(rng.randrange(2, 5))]
+    if use_bytes:
+        sks = [x.encode() for x in sks]
+    bare = b"profile" if use_bytes else "profile"
+    pairs = [(sk, bare) for sk in dict.fromkeys(sks)]
+    want = _c.Counter((owner(sk), prefix + kb(bare)) for sk, _ in pairs)
+    for opn, verb, call in (("set_many", b"set", lambda: hc.set_many({p: b"pv" for p in pairs})),
+                            ("get_many", b"get", lambda: hc.get_many(pairs)),
+                            ("gets_many", b"gets", lambda: hc.gets_many(pairs)),
+                            ("delete_many", b"delete", lambda: hc.delete_many(pairs))):
+        m = marks()
+        call()
+        got = _c.Counter()
+        for n_, lst in new_cmds(m).items():
+            for c in lst:
+                if c.verb == verb:
+                    for k in c.keys:
+                        got[(n_, k)] += 1
+                        res.count("commands_attributed")
+        res.count("multi_key_calls_checked")
+        # two pairs that land on the same server name the same item there: sending it once or once per pair are both fine
+        if set(got) != set(want) or any(got[k] > want[k] for k in got):
+            v("pair-not-sent-to-its-server-exactly-once:" + opn,
+              "%s(%r): per-server commands %r, expected %r" % (opn, pairs, dict(got), dict(want)))
+            return
     for n, s in servers.items():
         if s.malformed:
             v("malformed-on-wire", repr(s.malformed[0])[:100])
